@@ -97,6 +97,45 @@ def facts(c):
     return True
 
 
+def signature(op, impl, model):
+    """coarse class of the first thing that no longer checks in a case"""
+    if impl.startswith("FAIL") or impl.startswith("panic"):
+        return " ".join(impl.split()[:2])
+    return "mismatch " + op.split()[0]
+
+
+def diff_by_signature(c, ops_file, impl_file, model_file, hbin, exe, per_class=2):
+    """vcheck.diff reports (and shrinks) the first few failing cases only; so that one frequent failure class cannot
+    hide a different one, the cases are partitioned by the signature of their first failing line and every class
+    is diffed (and its first `per_class` cases shrunk) separately.  Counters add up over the partition."""
+    ops = open(ops_file).read().splitlines()
+    impl = open(impl_file).read().splitlines()
+    model = open(model_file).read().splitlines()
+    if not (len(ops) == len(impl) == len(model)):
+        c.diff(ops_file, impl_file, model_file, stateful=True, hbin=hbin, exe=exe)
+        return
+    groups = {}
+    for (a, b) in vcheck.split_cases(ops):
+        sig = "clean"
+        for i in range(a, b):
+            if ops[i].startswith("#"):
+                continue
+            if impl[i] != model[i] or impl[i].startswith("FAIL") or impl[i].startswith("panic"):
+                sig = signature(ops[i], impl[i], model[i])
+                break
+        groups.setdefault(sig, []).append((a, b))
+    c.cov["failure_classes"] = {k: len(v) for k, v in groups.items() if k != "clean"}
+    samples = c.cov["samples"]
+    for n, (sig, spans) in enumerate(sorted(groups.items(), key=lambda kv: (kv[0] != "clean", kv[0]))):
+        base = os.path.join(c.work, f"grp{n}")
+        for ext, lines in ((".ops", ops), (".impl", impl), (".model", model)):
+            with open(base + ext, "w") as f:
+                for (a, b) in spans:
+                    f.write("\n".join(lines[a:b]) + "\n")
+        c.diff(base + ".ops", base + ".impl", base + ".model", stateful=True, hbin=hbin, exe=exe, max_report=per_class)
+    c.cov["samples"] = samples[:6]
+
+
 def run(a):
     c = Check(PID, a.tier, a.seed)
     c.cov["rule"] = ("stateful cases (`# case n` + `reset`) of op lines over an arena of back-offers: new (plain / nil vars / vars with weight and "
@@ -121,7 +160,7 @@ def run(a):
                 c.cov["input_distribution"] = st
                 m = c.run_model(exe, ops)
                 if m:
-                    c.diff(ops, impl, m, stateful=True, hbin=hbin, exe=exe)
+                    diff_by_signature(c, ops, impl, m, hbin, exe)
                     c.cov["programs"] = 1
                     c.cov["exhaustive"] = False
         c.prove("ClientGoVerif.Props.C20")
